@@ -166,8 +166,27 @@ func (h *Handler) Handle(cx *layer4.Connection, next layer4.Handler) error {
 	// Set conn as a custom variable on cx.
 	cx.SetVar("l4.proxy_protocol.conn", conn)
 
+	// A v1 "PROXY UNKNOWN" header declares no addresses and the receiver has to go on
+	// using those of the real connection; the library reports an empty TCP address
+	// (":0") instead, on which e.g. the remote_ip matcher fails.
+	if hdr, _ := conn.ProxyHeader(); hdr != nil {
+		if a, ok := hdr.SrcAddr().(*net.TCPAddr); ok && a != nil && a.IP == nil {
+			return next.Handle(cx.Wrap(socketAddrConn{Conn: conn, local: cx.LocalAddr(), remote: cx.RemoteAddr()}))
+		}
+	}
+
 	return next.Handle(cx.Wrap(conn))
 }
+
+// socketAddrConn reads through a PROXY protocol connection (the header is
+// stripped) but keeps reporting the addresses of the real connection.
+type socketAddrConn struct {
+	net.Conn
+	local, remote net.Addr
+}
+
+func (c socketAddrConn) LocalAddr() net.Addr  { return c.local }
+func (c socketAddrConn) RemoteAddr() net.Addr { return c.remote }
 
 // UnmarshalCaddyfile sets up the Handler from Caddyfile tokens. Syntax:
 //
